@@ -183,7 +183,7 @@ class CopySetup:
         ]
 
 
-@cproof("c[le]:BpCopyBufferBits/frame", "BpCopyBufferBits", ["C03"],
+@cproof("c[le]:BpCopyBufferBits/frame", "BpCopyBufferBits", ["XC"],
         must=["BpCopyBufferBits#1/inv-preserve#frame-bytes", "BpCopyBufferBits#1/inv-preserve#rest-zero", "post:frame"])
 def _copy_le_frame(E, it):
     """little-endian body (u32 / u16 / u8 fast paths included), UNBOUNDED n: every access lies inside the two objects, no undefined
@@ -194,7 +194,7 @@ def _copy_le_frame(E, it):
     _copy(E, it, with_content=False)
 
 
-@cproof("c[le]:BpCopyBufferBits/full(experimental,unregistered)", "BpCopyBufferBits", [],
+@cproof("c[le]:BpCopyBufferBits/full", "BpCopyBufferBits", ["XC-full"],
         must=["BpCopyBufferBits#1/inv-preserve#content", "post:content"])
 def _copy_le(E, it):
     """n >= 0 bits (UNBOUNDED: the batch array path included) from source bit S0 to destination bit D0, destination bits zero on
@@ -204,7 +204,7 @@ def _copy_le(E, it):
     _copy(E, it)
 
 
-@cproof("c[be]:BpCopyBufferBits", "BpCopyBufferBits", ["C06"], big=True,
+@cproof("c[be]:BpCopyBufferBits", "BpCopyBufferBits", ["XC"], big=True,
         must=["BpCopyBufferBits#1/inv-preserve#content", "post:content", "post:frame"])
 def _copy_be(E, it):
     """the same contract for the body compiled with BP_BIG_ENDIAN (only the endian-neutral single-byte paths remain)"""
